@@ -5,6 +5,8 @@ Hypergraph methods that forward to them, plus independent oracles (counting / un
 property's words) on the implementation's answers."""
 import collections
 import itertools
+import os
+import sys
 import signal
 import warnings
 import zlib
@@ -29,7 +31,24 @@ RULE = ("random Hypergraph instances (0-9 nodes, 0-10 hyperedges of size "
         "EVERY node (the falsy labels 0 / '' / () / frozenset() / b'' are forced into 60% of the cases), every filter value on its own: none, size in 0..7, order in 0..6 (size 0 and values above the largest "
         "hyperedge match nothing) plus two rare values per check (order=-1 = size 0, negative, 256/257, 2**31, 2**63, 10**30), "
         "each through the Hypergraph method and the module-level function, plus the two primitives get_neighbors / get_incident_edges; DirectedHypergraph / TemporalHypergraph / "
-        "MultiplexHypergraph instances of the same shape for the degree functions; thorough adds ALL 32768 hypergraphs on "
+        "MultiplexHypergraph instances of the same shape for the degree functions; "
+        "EVERY MUTATOR of the class is part of the programs (the public methods are enumerated with inspect at the start of a run, an unknown one is reported): "
+        "add_node / add_nodes (with and without metadata) / add_edge / add_edges / remove_* / clear (followed by old labels coming back, some WITHOUT a hyperedge) / "
+        "populate_from_dict (a snapshot of another object; snapshot - work - look - roll back) / set_adj_dict / set_edge_list (the same tables in another order) / "
+        "set_weight / the metadata setters / add_empty_edge / add_random_edge(s) of the generation module - route `life`: ONE object, each mutator drawn equally often, "
+        "a look at the object after every step; batch calls and clear also for Directed / Temporal / Multiplex where the class has them; "
+        "CALLS THAT ARE NO PLAIN USE are part of the programs and the program goes on after them: calls the unchanged code rejects (absent hyperedge / node, a batch "
+        "with an absent or repeated member, a weight on an unweighted hypergraph, add_nodes with an incomplete metadata dict, a hyperedge that is no iterable / "
+        "cannot be sorted / has unhashable members, a node that is unhashable, batches rejected half-way, Temporal times that are negative / no int), calls it "
+        "accepts although the documentation asks for a dict (metadata of a hyperedge / node that is a str, number, list, tuple, list of pairs, frozenset, bytes, "
+        "bool; ONE dict object shared by several items), queries it rejects (a node that is not there, order= and size= together); after a mutator call that "
+        "raised - whoever raised it - the LISTING get_nodes() / get_edges() is the content from there on (it must be a hypergraph: distinct items, hyperedges over "
+        "listed nodes), the object is checked at once and again at the end; a rejected query must leave the content alone; "
+        "STARTING POINTS made by the library: random_hypergraph / random_uniform_hypergraph, add_random_edge(s)(inplace=False), save_hypergraph + load_hypergraph "
+        "(json and binary, all four classes), subhypergraph_by_orders (sizes / orders, repeated and absent values, keep_nodes), get_edges(subhypergraph=True, "
+        "filter, up_to, keep_isolated_nodes), subhypergraph_largest_component (every filter; must be the sub-hypergraph on a reachability class of maximal size), "
+        "Temporal aggregate / subhypergraph and Multiplex aggregated_hypergraph (their Hypergraph objects are checked like any other); "
+        "labels with EQUAL HASHES forced in pairs (-1 / -2, 0 / 2**61-1, '' / 0, (-1,) / (-2,)); thorough adds ALL 32768 hypergraphs on "
         "4 nodes. A case = one hypergraph (all its nodes and filters), distinct by (class, node order, hyperedge list) in ranks; "
         "non-trivial when for some filter there are >= 2 components, one of them with >= 2 nodes, and >= 1 hyperedge is "
         "excluded by that filter (for the degree-only classes: some filter excludes and some filter keeps a hyperedge)")
@@ -40,7 +59,10 @@ ASSUMPTIONS = ["hyperedges are duplicate-free node tuples over nodes of the hype
                "a hyperedge holds labels of one comparable group (add_edge sorts it); a hypergraph may hold several groups (a tuple label next to its int members)",
                "the content of an object is what its history (add/remove/copy/subhypergraph/clear, set semantics as documented) defines; "
                "get_nodes()/get_edges() are compared with that content at every check (a difference is reported, the container itself is C01-C04)",
-               "both order= and size= given is outside the property (the code rejects it)"]
+               "both order= and size= given is outside the property (the code rejects it; such calls are made inside programs and must change nothing)",
+               "a mutator call that raises is not a finding by itself when it is no plain use (malformed arguments, metadata that is no mapping): the finding is an "
+               "object that afterwards answers differently from what it lists; plain calls (documented argument shapes) must not raise",
+               "objects made by generators / loaders are taken with the content they list (what they should contain is not C08's business)"]
 TRUSTED = ["Python set/dict/deque/max semantics; the visited *set* of _bfs is compared as a set",
            "largest_component: any component of maximal size is accepted (tie-breaking is not part of the property)"]
 BUDGET_S = {"quick": 75, "thorough": 1500}
@@ -144,12 +166,39 @@ def map_op(kind, op, fn):
             return [t, [[fn(x) for x in op[1][0]], [fn(x) for x in op[1][1]]]] + list(op[2:])
         return [t, [fn(x) for x in op[1]]] + list(op[2:])
     if t in ("E", "RE", "ctor"):
+        if kind != "H":             # a batch of records of the other classes: each one written like its add_edge op
+            return [t, [map_op(kind, sub, fn) for sub in op[1]]] + list(op[2:])
         return [t, [[fn(x) for x in e] for e in op[1]]] + list(op[2:])
     if t == "RN":
         return [t, [fn(x) for x in op[1]]] + list(op[2:])
     if t == "sub":
         return [t, op[1], [fn(x) for x in op[2]]]
+    if t == "N":
+        return [t, [fn(x) for x in op[1]]] + list(op[2:])
+    if t in ("bad", "q"):
+        return [t, op[1], [fn(x) for x in op[2]]] + list(op[3:])
+    if t == "meta":
+        return [t, op[1], None if op[2] is None else map_op(kind, op[2], fn), [fn(x) for x in op[3]]] + list(op[4:])
     return list(op)
+
+
+def opt(op, idx):
+    """the options of an op (a dict at position idx, when it is there): {"md": k} metadata kind, {"w": x} explicit weight"""
+    return op[idx] if len(op) > idx and isinstance(op[idx], dict) else {}
+
+
+def e_opt(kind, op):
+    return opt(op, 2 if kind in "HD" else 3)
+
+
+# what a caller may hand over as metadata of a hyperedge / node: the unchanged add_edge / add_node store ANY object (the
+# documentation says dict).  Every call gets a freshly built object; kind SHARED_MD is ONE dict object per program that is
+# handed to several items.
+MD_MAKERS = [lambda: None, lambda: {}, lambda: {"label": "x"}, lambda: {"weight": 5, "k": [1, 2]}, lambda: {0: 0},
+             lambda: "bridge", lambda: "", lambda: 7, lambda: 0, lambda: 0.5, lambda: ["a", "b"], lambda: ("k", 1),
+             lambda: [("k", 1)], lambda: frozenset(), lambda: True, lambda: b"raw", lambda: [1, 2, 3]]
+N_MAPPING_MD = 5                      # kinds below are None / mappings (plain use), the others are not mappings
+SHARED_MD = len(MD_MAKERS)
 
 
 def enc_case(case):
@@ -405,7 +454,12 @@ class Pres:
 # generators
 
 BIG = [257, 258, 300, 1000, 1001, 4096, 65536, 2 ** 31 - 1, 2 ** 31, 2 ** 53 - 1, 2 ** 53, 2 ** 53 + 1, 2 ** 63 - 1, 2 ** 63,
-       2 ** 64 + 3, 10 ** 30, 10 ** 30 + 1, -6, -7, -300, -1000, -2 ** 31 - 1, -2 ** 53 - 1, -2 ** 63, -2 ** 63 - 1, -10 ** 30]
+       2 ** 64 + 3, 10 ** 30, 10 ** 30 + 1, -6, -7, -300, -1000, -2 ** 31 - 1, -2 ** 53 - 1, -2 ** 63, -2 ** 63 - 1, -10 ** 30,
+       2 ** 61 - 1, 2 ** 61, 2 ** 61 + 1, -1, -2]         # hash(2**61 - 1 + k) == hash(k), hash(-1) == hash(-2)
+# different labels with EQUAL hashes (a table keyed by hash(label) instead of the label merges them): forced in pairs
+COLLIDING = {"small": [(-1, -2)], "sparse": [(-1, -2)], "big": [(-1, -2), (0, 2 ** 61 - 1), (1, 2 ** 61), (2, 2 ** 61 + 1)],
+             "float": [(-1, -2), (0, 2 ** 61 - 1)], "tuple": [((-1,), (-2,)), ((-1, 0), (-2, 0))], "tuple+int": [(-1, -2)],
+             "str+int": [("", 0)], "fset+int": [(-1, -2)]}
 STRS = ([chr(97 + i) * k for i in range(12) for k in (1, 2)] + ["E1", "N0", "Z", "10", "9", "", "0", "2", "100", "1000", "-1", " ",
         "node-17", "node-3", "a b", "A", "é", "(0, 1)"])
 FLOATS = [0.5, 1.5, -0.5, 2.25, 2.5, -2.5, 0.1, 1e300, -1e300, 1e-300, float("inf"), float("-inf")]
@@ -447,6 +501,10 @@ def gen_labels(rng, n, kind="H"):
         if uni == "fset+int":
             pool = pool[:7] + [x for x in base[:6] if not isinstance(x, str)]
     labels = rng.sample(pool, min(n, len(pool)))
+    if len(labels) >= 2 and uni in COLLIDING and rng.random() < 0.3:
+        a, b = rng.choice(COLLIDING[uni])
+        rest = [x for x in labels if x != a and x != b]
+        labels = rng.sample([a, b] + rest[:len(labels) - 2], len(labels))
     falsy = FALSY[uni]
     if labels and falsy not in labels and rng.random() < 0.6:
         labels[rng.randrange(len(labels))] = falsy          # the falsy label (0 / '' / () / frozenset() / b'') is a node like any other
@@ -547,7 +605,17 @@ def gen_other(rng, kind):
 #   ["re", ...] remove_edge (same arguments, skipped when the record is absent)   ["rn", x, keep] remove_node(keep_edges)
 #   H only: ["ctor", [e..]] Hypergraph(edge_list=..) as the first op, ["E", [e..]] add_edges, ["RE", [e..]] remove_edges,
 #           ["RN", [x..], keep] remove_nodes, ["clr"] clear, ["sub", src, [x..]] new object = objs[src].subhypergraph(..)
-#   ["cp", src] new object = copy of objs[src]   ["on", i] focus := i   ["chk"(, i)] check an object now
+#   ["cp", src] new object = copy of objs[src]   ["on", i] focus := i   ["chk"(, i(, light))] check an object now
+#   options (a dict at the end of "e" / "n" / "N" / "E"): {"md": k} metadata kind (MD_MAKERS; "full" / "short" dict for "N"; a list for "E"),
+#           {"w": x} explicit weight (x != 1 on an unweighted hypergraph: rejected)
+#   ["re"] / ["rn"] / ["RE"] / ["RN"] naming absent (or repeated) items are CALLED and expected to be rejected
+#   ["N", [x..]] add_nodes   ["clr"] clear (H, D, T)   ["pop", src] populate_from_dict(deepcopy(objs[src].expose_data_structures()))
+#   ["adj"] / ["el"] set_adj_dict / set_edge_list with the same tables in reversed order (H)
+#   ["meta", method, record-op | None, [x], k] a mutator that must leave nodes and hyperedges alone (returns or raises)
+#   ["q", query, [x], "absent" | "both"] a query the code rejects   ["bad", name, [x..]] a malformed mutator call (BAD_CALLS)
+#   ["rnd", count, size, seed, inplace, by_order] generation.add_random_edge(s)
+#   new objects: ["sbo", src, "sizes"|"orders", [..], keep_nodes]  ["slc", src, filter]  ["ges", src, filter, up_to, keep_isolated]
+#                ["io", src, binary]  ["gen", "random"|"uniform", n, [[size, count]..], seed] (object 0 when it is the first op)
 # every object is checked once more at the end of the program.
 
 MAX_OBJS = 4
@@ -655,11 +723,21 @@ def labels_of(case):
             yield from op_members(kind, op)
         elif t in ("E", "RE", "ctor"):
             for e in op[1]:
-                yield from e
+                yield from (e if kind == "H" else op_members(kind, e))
         elif t == "RN":
             yield from op[1]
         elif t == "sub":
             yield from op[2]
+        elif t == "N":
+            yield from op[1]
+        elif t in ("bad", "q"):
+            yield from op[2]
+        elif t == "meta":
+            if op[2] is not None:
+                yield from op_members(kind, op[2])
+            yield from op[3]
+        elif t == "gen":
+            yield from range(op[2])          # the generators label their nodes 0 .. n-1
 
 
 WEIGHTS = [2, 0.5, 3, 1]
@@ -677,27 +755,83 @@ def new_obj(kind, edge_list=None, weighted=False, P=None, r=None):
     return cls(weighted=True) if weighted else cls()
 
 
+LISTING = {"H": tuple, "D": lambda e: (tuple(e[0]), tuple(e[1])), "T": lambda e: (e[0], tuple(e[1])),
+           "M": lambda e: (tuple(e[0]), e[1])}
+
+
+class Broken(Exception):
+    """the object no longer lists a hypergraph (a hyperedge over a node that is not listed, a repeated item)"""
+
+
+def shadow_classes(s, f):
+    """reachability classes of a Hypergraph shadow under filter f (union-find on the labels)"""
+    ws = want_size(f)
+    parent = {x: x for x in s.nodes}
+
+    def find(x):
+        while parent[x] != x:
+            x = parent[x]
+        return x
+    for e in s.recs:
+        if ws is None or len(e) == ws:
+            for y in e[1:]:
+                a, b = find(e[0]), find(y)
+                if a != b:
+                    parent[a] = b
+    cl = {}
+    for x in s.nodes:
+        cl.setdefault(find(x), []).append(x)
+    return list(cl.values())
+
+
+def jf(f):
+    """filter in JSON form (None | [name, value]) -> the tuple form used everywhere else"""
+    return None if f is None else (f[0], f[1])
+
+
+BAD_CALLS = {"H": ["edge-not-iterable", "edge-unsortable", "edge-unhashable", "node-unhashable", "nodes-not-iterable", "nodes-partial",
+                   "edges-partial", "edges-weights-short", "edges-metadata-short"],
+             "D": ["edge-not-iterable", "edge-unsortable", "edge-unhashable", "node-unhashable", "nodes-not-iterable", "nodes-partial",
+                   "edges-partial"],
+             "T": ["edge-not-iterable", "edge-unsortable", "edge-unhashable", "node-unhashable", "nodes-not-iterable", "nodes-partial",
+                   "time-negative", "time-float"],
+             "M": ["edge-not-iterable", "edge-unsortable", "edge-unhashable", "node-unhashable", "nodes-not-iterable", "nodes-partial"]}
+# mutators that leave nodes and hyperedges alone (called on present and on absent targets; accepted or rejected, the content stays)
+META_CALLS = ["set_weight", "set_edge_metadata", "set_attr_to_edge_metadata", "remove_attr_from_edge_metadata", "set_node_metadata",
+              "set_attr_to_node_metadata", "remove_attr_from_node_metadata", "set_hypergraph_metadata",
+              "set_attr_to_hypergraph_metadata", "set_incidence_metadata", "add_empty_edge"]
+NODE_QUERIES = ["degree", "node_connected_component", "is_isolated", "get_neighbors", "get_incident_edges"]
+PRODUCERS = ("cp", "sub", "sbo", "slc", "ges", "io", "gen", "new")
+
+
 class World:
     """the objects of one program: shadows always, implementation objects and model lines when `rank` is given"""
 
     def __init__(self, kind, rank=None, weighted=False, pres=0):
         self.kind, self.rank, self.live, self.weighted = kind, rank, rank is not None, bool(weighted)
         self.P = Pres(pres or 0, len({grp(x) for x in rank or ()}) <= 1)
+        self.canon = {x: x for x in rank} if self.live else {}
         self.step = 0
         self.sh = [Shadow(kind)]
         self.objs = [new_obj(kind, weighted=self.weighted)] if self.live else [None]
+        self.wt = [self.weighted]     # per object: made with weighted=True (what a generator makes is unweighted)
         self.focus = 0
         self.rel = [set()]            # copy / subhypergraph lineage
         self.stale = [False]          # a relative was mutated after the copy was taken
         self.checked = [False]        # queried before ...
         self.touched = [False]        # ... and mutated in place since
         self.lines = ["hnew"] if kind == "H" else []
+        self.wants = ["ok"] if kind == "H" else []
         self.nops = 0
+        self.events = []              # (object, what): calls that raised and were caught - the object is checked right away
+        self.counts = collections.Counter()
+        self.shared_md = {"shared": 1}
 
     # model lines (Hypergraph only: the Lean history model `C08.Hist`)
-    def _m(self, *toks):
+    def _m(self, *toks, want="ok"):
         if self.live and self.kind == "H":
             self.lines.append(" ".join(str(t) for t in toks))
+            self.wants.append(want)
 
     def _e(self, e):
         return hgxv.enc_list(sorted(self.rank[x] for x in e), "_") if self.live else ""
@@ -707,7 +841,10 @@ class World:
 
     def _w(self, j=0):
         """weight keyword of add_edge: weighted hypergraphs count hyperedges all the same"""
-        return {"weight": WEIGHTS[(self.nops + j) % 4]} if self.weighted else {}
+        return {"weight": WEIGHTS[(self.nops + j) % 4]} if self.wt[self.focus] else {}
+
+    def _md(self, k):
+        return self.shared_md if k == SHARED_MD else MD_MAKERS[k]()
 
     def _mutated(self, i):
         self.touched[i] = True
@@ -715,29 +852,238 @@ class World:
             self.stale[j] = True
 
     def _spawn(self, src, shadow, make):
+        obj = make() if self.live else None
         self.sh.append(shadow)
-        self.objs.append(make() if self.live else None)
+        self.objs.append(obj)
+        self.wt.append(self.wt[src] if src is not None else False)
         k = len(self.sh) - 1
-        fam = {src} | self.rel[src]
+        fam = ({src} | self.rel[src]) if src is not None else set()
         self.rel.append(set(fam))
         for j in fam:
             self.rel[j].add(k)
         self.stale.append(False)
         self.checked.append(False)
         self.touched.append(False)
+        return k
+
+    def _mset(self, k):
+        """the model takes the content of object k as it stands in the shadow (`hset`: a new object when k is the next index)"""
+        if self.live and self.kind == "H":
+            s = self.sh[k]
+            self._m("hset", k, hgxv.enc_lists([sorted(self.rank[x] for x in e) for e in s.recs]),
+                    hgxv.enc_list([self.rank[x] for x in s.nodes]))
+
+    def resync(self, i):
+        """the LISTING of object i is its content from here on: after a call that raised (whatever it did before it raised), after a
+        call whose outcome the library draws (add_random_edge), for an object a generator / loader made.  The listing must be
+        a hypergraph: distinct known nodes, distinct hyperedges over listed nodes - otherwise no degree can be right."""
+        if not self.live:
+            return
+        h, kind, canon = self.objs[i], self.kind, self.canon
+        raw_n, raw_e = h.get_nodes(), h.get_edges()
+        nodes, recs = {}, {}
+        try:
+            for x in raw_n:
+                if canon[x] in nodes:
+                    raise Broken(f"get_nodes() lists {x!r} twice")
+                nodes[canon[x]] = None
+            for e in raw_e:
+                q = LISTING[kind](e)
+                lab = lambda t: tuple(sorted((canon[y] for y in t), key=lkey))       # noqa: E731
+                q = lab(q) if kind == "H" else (lab(q[0]), lab(q[1])) if kind == "D" else (q[0], lab(q[1])) if kind == "T" \
+                    else (lab(q[0]), q[1])
+                if q in recs:
+                    raise Broken(f"get_edges() lists {q!r} twice")
+                recs[q] = None
+        except (KeyError, TypeError) as ex:
+            raise Broken(f"the object lists an item that no call of this history put there ({type(ex).__name__}: {ex})") from None
+        s = self.sh[i]
+        for q in recs:
+            for y in s.members(q):
+                if y not in nodes:
+                    raise Broken(f"get_edges() lists {q!r} but get_nodes() does not list {y!r}: the degrees cannot sum to the "
+                                 f"total size of the hyperedges")
+        s.nodes, s.recs = nodes, recs
+        self._mset(i)
+        self.counts["listings_taken_as_starting_point"] += 1
+
+    def call(self, mode, fn):
+        """one mutator call.  "must": plain use, an exception is a finding (it propagates); "may": the unchanged code takes it
+        but it is no plain use (metadata that is no mapping); "rej": the unchanged code rejects it.  True when it returned."""
+        if not self.live:
+            return mode != "rej"
+        try:
+            fn()
+            ok = True
+        except Exception as ex:  # noqa: BLE001
+            if mode == "must":
+                raise
+            ok = False
+            self.events.append((self.focus, "%s: %s" % (type(ex).__name__, str(ex)[:80])))
+            self.counts["calls_that_raised_inside_programs"] += 1
+            if os.environ.get("C08_DEBUG"):
+                print("C08_DEBUG raised", mode, self.kind, self.step, self.events[-1], file=sys.stderr)
+        if mode == "rej" or not ok:
+            self.counts["calls_%s_%s" % ({"may": "unusual", "rej": "malformed"}[mode], "returned" if ok else "raised")] += 1
+        return ok
+
+    def quiet(self, fn):
+        """a call that must leave nodes and hyperedges alone whether it returns or raises"""
+        if not self.live:
+            return
+        try:
+            v = fn()
+            scribble(v) if isinstance(v, (list, set)) else None
+            self.counts["content_neutral_calls_returned"] += 1
+        except Exception:  # noqa: BLE001
+            self.counts["content_neutral_calls_raised"] += 1
 
     def apply(self, op):
-        """returns the index of the object to check for a "chk" op, else None"""
+        """returns (object index, light) for a "chk" op, else None"""
         try:
             return self._apply(op)
         finally:
             self.P.settle()       # aliasing IN: the containers handed to the call are scribbled over afterwards
 
-    def _apply(self, op):
+    def _rec_args(self, r, recop, pair):
+        """positional arguments that name a record in set_weight / set_edge_metadata / ... of this class"""
+        kind, P = self.kind, self.P
+        if kind == "H":
+            return (P.edge(r, recop[1], HASHABLE),)
+        if kind == "D":
+            return (pair(P.edge(r, recop[1][0], HASHABLE), P.edge(r, recop[1][1], HASHABLE)),)
+        return (P.edge(r, recop[1], HASHABLE), recop[2])
+
+    def _produce(self, op, r):
         import copy as _copy
+        import pickle as _pickle
+        kind, t, P = self.kind, op[0], self.P
+        first = t == "gen" and self.nops == 0 and len(self.sh) == 1          # the generated object is object 0
+        if len(self.sh) >= MAX_OBJS and not first:
+            return None
+        if t in ("sub", "sbo", "slc", "ges", "gen") and kind != "H":
+            return None
+        if t == "new":               # one more empty object of the class, made the way object 0 was made
+            k = self._spawn(None, Shadow(kind), lambda: new_obj(kind, weighted=self.wt[0]))
+            self.wt[k] = self.wt[0]
+            self._mset(k)
+            return None
+        src = None if t == "gen" else op[1]
+        if src is not None and not (isinstance(src, int) and 0 <= src < len(self.sh)):
+            return None
+        ssrc = None if src is None else self.sh[src]
+        osrc = None if src is None else self.objs[src]
+        if t == "cp":
+            how = r.random()            # copy() (not for Multiplex), copy.deepcopy, a pickle round trip of the object itself
+            self._spawn(src, ssrc.copy(), lambda: _pickle.loads(_pickle.dumps(osrc)) if how < 0.1 else
+                        _copy.deepcopy(osrc) if kind == "M" or how < 0.22 else osrc.copy())
+            self._m("hcp", src)
+        elif t == "sub":
+            nodes = [x for x in dict.fromkeys(op[2]) if x in ssrc.nodes]
+            # subhypergraph walks its argument several times: any re-iterable collection of nodes
+            self._spawn(src, ssrc.sub(nodes), lambda: osrc.subhypergraph(P.nodes(r, nodes, TWICE)))
+            self._m("hsub", src, hgxv.enc_list([self.rank[x] for x in nodes]) if self.live else "")
+        elif t == "sbo":
+            which, vals, keep = op[2], list(op[3]), bool(op[4])
+            sizes = set(vals) if which == "sizes" else {v + 1 for v in vals}
+            sh = Shadow(kind)
+            if keep:
+                for x in ssrc.nodes:
+                    sh.add_node(x)
+            for q in ssrc.recs:
+                if len(q) in sizes:
+                    sh.add(q)
+            box = (list, tuple)[r.randrange(2)]
+            k = self._spawn(src, sh, lambda: osrc.subhypergraph_by_orders(**{which: box(vals)}, keep_nodes=keep)
+                            if r.random() < 0.7 or not keep else osrc.subhypergraph_by_orders(**{which: box(vals)}))
+            self._mset(k)
+        elif t == "ges":
+            f, up_to, keep = jf(op[2]), bool(op[3]), bool(op[4])
+            ws = want_size(f)
+            sh = Shadow(kind)
+            if keep:
+                for x in ssrc.nodes:
+                    sh.add_node(x)
+            for q in ssrc.recs:
+                if ws is None or (len(q) <= ws if up_to else len(q) == ws):
+                    sh.add(q)
+            k = self._spawn(src, sh, lambda: osrc.get_edges(**kw(f), up_to=up_to, subhypergraph=True, keep_isolated_nodes=keep))
+            self._mset(k)
+        elif t == "slc":
+            f = jf(op[2])
+            classes = shadow_classes(ssrc, f)
+            if not classes:             # no component exists: the code raises (max of nothing); nothing is made
+                self.quiet(lambda: osrc.subhypergraph_largest_component(**kw(f)))
+                return None
+            big = max(len(c) for c in classes)
+            k = self._spawn(src, ssrc.sub(next(c for c in classes if len(c) == big)),
+                            lambda: osrc.subhypergraph_largest_component(**kw(f)))
+            if self.live:
+                self.resync(k)
+                got = set(self.sh[k].nodes)
+                if not any(got == set(c) for c in classes if len(c) == big) or set(self.sh[k].recs) != set(ssrc.sub(list(got)).recs):
+                    raise Broken(f"subhypergraph_largest_component({kw(f)}) of object {src} has nodes {sorted(got, key=repr)} / "
+                                 f"hyperedges {sorted(self.sh[k].recs, key=repr)}: not the sub-hypergraph on a reachability class "
+                                 f"of maximal size {big} (classes {classes})"[:1200])
+        elif t == "io":
+            made = []
+            if self.live:
+                import os
+                import tempfile
+                from hypergraphx.readwrite.save import save_hypergraph
+                from hypergraphx.readwrite.load import load_hypergraph
+                path = os.path.join(tempfile.gettempdir(), "c08-%d.%s" % (os.getpid(), "hgx" if op[2] else "json"))
+                try:
+                    save_hypergraph(osrc, path, binary=bool(op[2]))
+                    made.append(load_hypergraph(path))
+                except Exception:  # noqa: BLE001 - labels / metadata the file format cannot hold: the loaders are not C08's
+                    self.counts["save_load_round_trips_not_possible"] += 1
+                    return None
+                finally:
+                    try:
+                        os.remove(path)
+                    except OSError:
+                        pass
+            k = self._spawn(src, ssrc.copy(), lambda: made[0])
+            if self.live:
+                try:
+                    self.resync(k)
+                except Broken:          # the file format changed the labels (tuples come back as lists): not an object of this universe
+                    for l in (self.sh, self.objs, self.rel, self.stale, self.checked, self.touched, self.wt):
+                        l.pop()
+                    for fam in self.rel:
+                        fam.discard(k)
+                    self.counts["save_load_round_trips_not_possible"] += 1
+                    return None
+                self.counts["objects_from_save_load"] += 1
+        elif t == "gen":
+            n, sizes, seed = op[2], {int(a): int(b) for a, b in op[3]}, op[4]
+            sh = Shadow(kind)
+            for x in range(n):
+                sh.add_node(x)
+
+            def make():
+                from hypergraphx.generation.random import random_hypergraph, random_uniform_hypergraph
+                if op[1] == "uniform":
+                    (sz, cnt), = sizes.items()
+                    return random_uniform_hypergraph(n, sz, cnt, seed=seed)
+                return random_hypergraph(n, sizes, seed=seed)
+            if first:
+                self.sh[0], self.wt[0] = sh, False
+                if self.live:
+                    self.objs[0] = make()
+                k = 0
+            else:
+                k = self._spawn(None, sh, make)
+            if self.live:
+                self.resync(k)
+                self.counts["objects_from_generators"] += 1
+        return None
+
+    def _apply(self, op):
         kind, t, i = self.kind, op[0], self.focus
         s, h = self.sh[i], self.objs[i]
-        P = self.P
+        P, live = self.P, self.live
         self.step += 1
         r = P.at("op%d" % self.step)
         pair = lambda a, b: [a, b] if r.random() < 0.3 else (a, b)      # noqa: E731 - a (sources, targets) / (nodes, layer) pair
@@ -746,104 +1092,375 @@ class World:
                 self.focus = op[1]
             return None
         if t == "chk":
-            return op[1] if len(op) > 1 and 0 <= op[1] < len(self.sh) else i
-        if t in ("cp", "sub"):
-            src = op[1]
-            if not (0 <= src < len(self.sh)) or len(self.sh) >= MAX_OBJS or (t == "sub" and kind != "H"):
-                return None
-            if t == "cp":
-                self._spawn(src, self.sh[src].copy(),
-                            lambda: _copy.deepcopy(self.objs[src]) if kind == "M" else self.objs[src].copy())
-                self._m("hcp", src)
-            else:
-                nodes = [x for x in dict.fromkeys(op[2]) if x in self.sh[src].nodes]
-                # subhypergraph walks its argument several times: any re-iterable collection of nodes
-                self._spawn(src, self.sh[src].sub(nodes), lambda: self.objs[src].subhypergraph(P.nodes(r, nodes, TWICE)))
-                self._m("hsub", src, hgxv.enc_list([self.rank[x] for x in nodes]) if self.live else "")
-            return None
+            j = op[1] if len(op) > 1 and isinstance(op[1], int) and 0 <= op[1] < len(self.sh) else i
+            return (j, bool(op[2]) if len(op) > 2 else False)
+        if t in PRODUCERS:
+            return self._produce(op, r)
         self.nops += 1
         if t == "n":
-            if self.live:
-                h.add_node(fresh(op[1], r))
+            o = opt(op, 2)
+            mode = "must"
+            if "md" in o:
+                md = self._md(o["md"])
+                if N_MAPPING_MD <= o["md"] < SHARED_MD:
+                    mode = "may"
+                ok = self.call(mode, lambda: h.add_node(fresh(op[1], r), md) if r.random() < 0.4 else h.add_node(fresh(op[1], r), metadata=md))
+            else:
+                ok = self.call(mode, lambda: h.add_node(fresh(op[1], r)))
+            if ok:
                 self._m("hn", i, self._r(op[1]))
-            s.add_node(op[1])
+                s.add_node(op[1])
+            elif live:
+                self.resync(i)
+        elif t == "N":
+            o = opt(op, 2)
+            xs, how = list(op[1]), o.get("md")
+            if kind == "D":
+                how = None                  # DirectedHypergraph.add_nodes takes the nodes only
+            name = "node_metadata" if kind == "M" else "metadata"
+            mode = "rej" if how == "short" and xs else "must"       # a node without an entry: the batch is rejected
+
+            def add_nodes():
+                if how is None:
+                    return h.add_nodes(P.nodes(r, xs, TWICE)) if r.random() < 0.7 else h.add_nodes(node_list=P.nodes(r, xs, TWICE))
+                md = {fresh(x, r): self._md(1 + j % (N_MAPPING_MD - 1)) for j, x in enumerate(xs)}
+                if how == "short":
+                    del md[xs[r.randrange(len(xs))]]
+                return h.add_nodes(P.nodes(r, xs, TWICE), **{name: md})
+            self.call(mode, add_nodes)
+            if mode == "must":
+                for x in xs:
+                    s.add_node(x)
+                    self._m("hn", i, self._r(x))
+            elif live:
+                self.resync(i)
         elif t == "e":
+            o = e_opt(kind, op)
             rec = s.rec(op)
-            if self.live:
+            kws = dict(self._w())
+            mode = "must"
+            if "md" in o:
+                kws["metadata"] = self._md(o["md"])
+                if N_MAPPING_MD <= o["md"] < SHARED_MD:
+                    mode = "may"
+            if "w" in o and not self.wt[i]:
+                kws["weight"] = o["w"]
+                if o["w"] != 1:
+                    mode = "rej"
+            if kind == "H":
+                ok = self.call(mode, lambda: h.add_edge(P.edge(r, op[1]), **kws))
+            elif kind == "D":
+                ok = self.call(mode, lambda: h.add_edge(pair(P.edge(r, op[1][0]), P.edge(r, op[1][1])), **kws))
+            else:
+                ok = self.call(mode, lambda: h.add_edge(P.edge(r, op[1]), op[2], **kws))
+            if ok and mode != "rej":
+                s.add(rec)
                 if kind == "H":
-                    h.add_edge(P.edge(r, op[1]), **self._w())
                     self._m("he", i, self._e(op[1]))
-                elif kind == "D":
-                    h.add_edge(pair(P.edge(r, op[1][0]), P.edge(r, op[1][1])), **self._w())
-                else:
-                    h.add_edge(P.edge(r, op[1]), op[2], **self._w())
-            s.add(rec)
+            if live and (mode == "rej" or not ok):
+                self.resync(i)
         elif t == "re":
             rec = s.rec(op)
-            if rec not in s.recs:
-                return None
-            if self.live:
-                if kind == "H":
-                    h.remove_edge(P.edge(r, op[1]))
-                    self._m("hre", i, self._e(op[1]))
-                elif kind == "D":
-                    h.remove_edge(pair(P.edge(r, op[1][0]), P.edge(r, op[1][1])))
-                elif kind == "T":
-                    h.remove_edge(P.edge(r, op[1]), op[2])
-                else:
-                    h.remove_edge(pair(P.edge(r, op[1]), op[2]))
-            s.remove(rec)
+            mode = "must" if rec in s.recs else "rej"          # an absent hyperedge: the code raises, the program goes on
+            if kind == "H":
+                ok = self.call(mode, lambda: h.remove_edge(P.edge(r, op[1])))
+                self._m("hre", i, self._e(op[1]), want="ok" if mode == "must" else "rej")
+            elif kind == "D":
+                ok = self.call(mode, lambda: h.remove_edge(pair(P.edge(r, op[1][0]), P.edge(r, op[1][1]))))
+            elif kind == "T":
+                ok = self.call(mode, lambda: h.remove_edge(P.edge(r, op[1]), op[2]))
+            else:
+                ok = self.call(mode, lambda: h.remove_edge(pair(P.edge(r, op[1]), op[2])))
+            if mode == "must":
+                s.remove(rec)
+            elif live:
+                self.resync(i)
         elif t == "rn":
-            if op[1] not in s.nodes:
+            mode = "must" if op[1] in s.nodes else "rej"
+            if r.random() < 0.3:
+                self.call(mode, lambda: h.remove_node(fresh(op[1], r), bool(op[2])))
+            else:
+                self.call(mode, lambda: h.remove_node(fresh(op[1], r), keep_edges=bool(op[2])))
+            self._m("hrn", i, self._r(op[1]), 1 if op[2] else 0, want="ok" if mode == "must" else "rej")
+            if mode == "must":
+                s.remove_node(op[1], bool(op[2]))
+            elif live:
+                self.resync(i)
+        elif t == "clr":
+            if kind == "M":
                 return None
-            if self.live:
-                if r.random() < 0.3:
-                    h.remove_node(fresh(op[1], r), bool(op[2]))
-                else:
-                    h.remove_node(fresh(op[1], r), keep_edges=bool(op[2]))
-                self._m("hrn", i, self._r(op[1]), 1 if op[2] else 0)
-            s.remove_node(op[1], bool(op[2]))
+            self.call("must", lambda: h.clear())
+            self._m("hclr", i)
+            s.clear()
+        elif t == "pop":
+            import copy as _copy
+            src = op[1]
+            if not (isinstance(src, int) and 0 <= src < len(self.sh)):
+                return None
+            osrc = self.objs[src]
+            # a snapshot of the tables (what save / load pass around), restored into this object
+            self.call("must", lambda: h.populate_from_dict(_copy.deepcopy(osrc.expose_data_structures())))
+            self.sh[i], self.wt[i] = self.sh[src].copy(), self.wt[src]
+            self._m("hpop", i, src)
+            if src != i:
+                self.rel[i].add(src)
+                self.rel[src].add(i)
+        elif t == "meta":
+            name, recop, xs, k = op[1], op[2], list(op[3]), op[4]
+            if live and hasattr(h, name):
+                md = self._md(k % (SHARED_MD + 1))
+                rec_a = lambda: self._rec_args(r, recop, pair) if recop is not None else ((),)       # noqa: E731
+                node_a = lambda: (fresh(xs[0], r),) if xs else (None,)                               # noqa: E731
+                if name == "set_weight":
+                    self.quiet(lambda: h.set_weight(*rec_a(), (1, 2.5, 1.0, 0)[k % 4] if not self.wt[i] else (2.5, 1, 0.5, 3)[k % 4]))
+                elif name == "set_edge_metadata":
+                    self.quiet(lambda: h.set_edge_metadata(*rec_a(), md))
+                elif name == "set_attr_to_edge_metadata":
+                    self.quiet(lambda: h.set_attr_to_edge_metadata(*rec_a(), "k", md))
+                elif name == "remove_attr_from_edge_metadata":
+                    self.quiet(lambda: h.remove_attr_from_edge_metadata(*rec_a(), ("k", "label", "absent")[k % 3]))
+                elif name == "set_node_metadata":
+                    self.quiet(lambda: h.set_node_metadata(*node_a(), md))
+                elif name == "set_attr_to_node_metadata":
+                    self.quiet(lambda: h.set_attr_to_node_metadata(*node_a(), "k", md))
+                elif name == "remove_attr_from_node_metadata":
+                    self.quiet(lambda: h.remove_attr_from_node_metadata(*node_a(), ("k", "absent")[k % 2]))
+                elif name == "set_hypergraph_metadata":
+                    self.quiet(lambda: h.set_hypergraph_metadata({"name": "c08", "k": k}))
+                elif name == "set_attr_to_hypergraph_metadata":
+                    self.quiet(lambda: h.set_attr_to_hypergraph_metadata("k", md))
+                elif name == "set_incidence_metadata":
+                    a = rec_a()
+                    self.quiet(lambda: h.set_incidence_metadata(*a[:1], *node_a(), md) if kind in "HD"
+                               else h.set_incidence_metadata(*a, *node_a(), md))
+                elif name == "add_empty_edge":
+                    self.quiet(lambda: h.add_empty_edge("E%d" % (k % 3), md))
+            return None
+        elif t == "q":
+            if live:
+                self._query_rejected(op, r)
+            return None
+        elif t == "bad":
+            self._bad(op, r, pair)
+        elif kind != "H" and t in ("E", "RE", "RN"):
+            if not self._batch_other(op, r, pair):
+                return None
         elif kind != "H":
             return None
         elif t in ("E", "ctor"):
+            o = opt(op, 2)
+            mds = o.get("md")
             if t == "ctor" and self.nops == 1 and len(self.sh) == 1:
-                if self.live:
-                    self.objs[i] = new_obj("H", op[1], self.weighted, P, r)
-            elif self.live and self.weighted:     # with weights the batch must not repeat a hyperedge (the code rejects it)
-                es = list(dict.fromkeys(tuple(sorted(e, key=lkey)) for e in op[1]))
-                h.add_edges(P.edges(r, es, HASHABLE, OUTER_SIZED), weights=[self._w(j)["weight"] for j in range(len(es))])
-            elif self.live:
-                h.add_edges(P.edges(r, op[1]))
-            for e in op[1]:
-                s.add(tuple(sorted(e, key=lkey)))
-                self._m("he", i, self._e(e))
+                if live:
+                    self.objs[i] = new_obj("H", op[1], self.wt[i], P, r)
+                ok, mode = True, "must"
+            else:
+                kws, mode = {}, "must"
+                es = list(op[1])
+                if self.wt[i]:     # with weights the batch must not repeat a hyperedge (the code rejects it)
+                    es = list(dict.fromkeys(tuple(sorted(e, key=lkey)) for e in op[1]))
+                    kws["weights"] = [self._w(j)["weight"] for j in range(len(es))]
+                if mds is not None and len(mds) >= len(es):
+                    kws["metadata"] = [self._md(k) for k in mds]
+                    if any(N_MAPPING_MD <= k < SHARED_MD for k in mds[:len(es)]):
+                        mode = "may"
+                if self.wt[i]:
+                    ok = self.call(mode, lambda: h.add_edges(P.edges(r, es, HASHABLE, OUTER_SIZED), **kws))
+                else:
+                    ok = self.call(mode, lambda: h.add_edges(P.edges(r, es), **kws))
+            if ok:
+                for e in op[1]:
+                    s.add(tuple(sorted(e, key=lkey)))
+                    self._m("he", i, self._e(e))
+            elif live:
+                self.resync(i)
         elif t == "RE":
-            es = [q for q in dict.fromkeys(tuple(sorted(e, key=lkey)) for e in op[1]) if q in s.recs]
+            es = [tuple(sorted(e, key=lkey)) for e in op[1]]
             if not es:
                 return None
-            if self.live:
-                h.remove_edges(P.edges(r, es, TWICE))      # every hyperedge of the batch is looked at twice (validation, removal)
-            for q in es:
-                s.remove(q)
-                self._m("hre", i, self._e(q))
+            mode = "must" if all(q in s.recs for q in es) and len(set(es)) == len(es) else "rej"      # the batch is validated first
+            self.call(mode, lambda: h.remove_edges(P.edges(r, es, TWICE)))      # every hyperedge of the batch is looked at twice
+            if mode == "must":
+                for q in es:
+                    s.remove(q)
+                    self._m("hre", i, self._e(q))
+            elif live:
+                self.resync(i)
         elif t == "RN":
-            xs = [x for x in dict.fromkeys(op[1]) if x in s.nodes]
+            xs = list(op[1])
             if not xs:
                 return None
-            if self.live:
-                h.remove_nodes(P.nodes(r, xs), keep_edges=bool(op[2]))
-            for x in xs:
-                s.remove_node(x, bool(op[2]))
-                self._m("hrn", i, self._r(x), 1 if op[2] else 0)
-        elif t == "clr":
-            if self.live:
-                h.clear()
-                self._m("hclr", i)
-            s.clear()
+            mode = "must" if all(x in s.nodes for x in xs) and len(set(xs)) == len(xs) else "rej"
+            self.call(mode, lambda: h.remove_nodes(P.nodes(r, xs), keep_edges=bool(op[2])))
+            if mode == "must":
+                for x in xs:
+                    s.remove_node(x, bool(op[2]))
+                    self._m("hrn", i, self._r(x), 1 if op[2] else 0)
+            elif live:
+                self.resync(i)
+        elif t in ("adj", "el"):
+            # the raw tables handed back in another order (fresh containers): the same hypergraph
+            if t == "adj":
+                self.call("must", lambda: h.set_adj_dict({k: list(v) for k, v in reversed(list(h.get_adj_dict().items()))}))
+            else:
+                self.call("must", lambda: h.set_edge_list(dict(reversed(list(h.get_edge_list().items())))))
+            return None
+        elif t == "rnd":
+            cnt, size, seed, inplace, by_order = op[1], op[2], op[3], bool(op[4]), bool(op[5])
+            if not live:
+                return None
+            import math
+            if size < 0 or math.comb(len(s.nodes), size) < cnt:
+                return None                  # add_random_edges draws until it has cnt distinct hyperedges
+            from hypergraphx.generation.random import add_random_edge, add_random_edges
+            fk = {"order": size - 1} if by_order else {"size": size}
+            out = []
+            fn = (lambda: out.append(add_random_edge(h, inplace=inplace, seed=seed, **fk))) if cnt == 1 else \
+                (lambda: out.append(add_random_edges(h, cnt, inplace=inplace, seed=seed, **fk)))
+            ok = self.call("may", fn)
+            if inplace or not ok:
+                self.resync(i)
+            elif out and out[0] is not None and len(self.sh) < MAX_OBJS:
+                k = self._spawn(i, s.copy(), lambda: out[0])
+                self.resync(k)
+            if not inplace:
+                return None
         else:
             return None
         self._mutated(i)
         return None
+
+    def _batch_other(self, op, r, pair):
+        """add_edges / remove_edges / remove_nodes of DirectedHypergraph, TemporalHypergraph, MultiplexHypergraph (lists, as
+        their signatures say); False when the class has no such method"""
+        kind, t, i = self.kind, op[0], self.focus
+        s, h, P, live = self.sh[i], self.objs[i], self.P, self.live
+        if t == "RN":
+            xs = list(op[1])
+            if not xs or kind == "M":
+                return False
+            mode = "must" if all(x in s.nodes for x in xs) and len(set(xs)) == len(xs) else "rej"
+            self.call(mode, lambda: h.remove_nodes(P.nodes(r, xs, ["list", "tuple"]), keep_edges=bool(op[2])))
+            if mode == "must":
+                for x in xs:
+                    s.remove_node(x, bool(op[2]))
+            elif live:
+                self.resync(i)
+            return True
+        subs = [sub for sub in op[1]]
+        recs = [s.rec(sub) for sub in subs]
+        if not subs:
+            return False
+
+        def written(sub):
+            if kind == "D":
+                return (P.edge(r, sub[1][0], HASHABLE), P.edge(r, sub[1][1], HASHABLE))
+            return P.edge(r, sub[1], HASHABLE)
+        if t == "RE":
+            if kind == "M":
+                return False
+            mode = "must" if all(q in s.recs for q in recs) and len(set(recs)) == len(recs) else "rej"
+            if kind == "D":
+                self.call(mode, lambda: h.remove_edges([written(sub) for sub in subs]))
+            else:
+                self.call(mode, lambda: h.remove_edges([(sub[2], written(sub)) for sub in subs]))
+            if mode == "must":
+                for q in recs:
+                    s.remove(q)
+            elif live:
+                self.resync(i)
+            return True
+        keep = list(zip(recs, subs))
+        if self.wt[i]:       # with weights a batch must not repeat a record (Temporal: not even the node tuple at another time)
+            first = {}
+            for q, sub in keep:
+                first.setdefault(s.members(q) if kind == "T" else q, (q, sub))
+            keep = list(first.values())
+        subs = [sub for _, sub in keep]
+        kws, mode = {}, "must"
+        mds = opt(op, 2).get("md")
+        if self.wt[i]:
+            kws["weights"] = [self._w(j)["weight"] for j in range(len(subs))]
+        if mds is not None and len(mds) >= len(subs):
+            kws["metadata"] = [self._md(k) for k in mds[:len(subs)]]
+            if any(N_MAPPING_MD <= k < SHARED_MD for k in mds[:len(subs)]):
+                mode = "may"
+        if kind == "D":
+            ok = self.call(mode, lambda: h.add_edges([written(sub) for sub in subs], **kws))
+        else:
+            ok = self.call(mode, lambda: h.add_edges([written(sub) for sub in subs], [sub[2] for sub in subs], **kws))
+        if ok:
+            for q, _ in keep:
+                s.add(q)
+        elif live:
+            self.resync(i)
+        return True
+
+    def _bad(self, op, r, pair):
+        """a malformed call of a mutator (the unchanged code raises, some of them after part of the work); afterwards the
+        listing of the object is its content"""
+        kind, name, xs, i = self.kind, op[1], list(op[2]), self.focus
+        s, h, P = self.sh[i], self.objs[i], self.P
+        if not self.live:
+            if name == "nodes-partial" and xs:
+                s.add_node(xs[0])
+            elif name == "edges-partial" and xs and kind == "H":
+                s.add(tuple(sorted(xs, key=lkey)))
+            return
+        if name not in BAD_CALLS[kind]:
+            return
+        extra = () if kind in "HD" else (1,) if kind == "T" else ("a",)
+        fx = [fresh(x, r) for x in xs]
+        if name == "edge-not-iterable":
+            fn = lambda: h.add_edge(5, *extra)                                           # noqa: E731
+        elif name == "edge-unsortable":
+            bad = fx + [None]
+            fn = (lambda: h.add_edge((bad, fx[:1]))) if kind == "D" else (lambda: h.add_edge(bad, *extra))      # noqa: E731
+        elif name == "edge-unhashable":
+            bad = [[x] for x in fx] or [[]]
+            fn = (lambda: h.add_edge((bad, bad))) if kind == "D" else (lambda: h.add_edge(bad, *extra))      # noqa: E731
+        elif name == "node-unhashable":
+            fn = lambda: h.add_node(list(fx))                                            # noqa: E731
+        elif name == "nodes-not-iterable":
+            fn = lambda: h.add_nodes(5)                                                  # noqa: E731
+        elif name == "nodes-partial":
+            fn = lambda: h.add_nodes(fx[:1] + [[0]])                                     # noqa: E731
+        elif name == "edges-partial":
+            if len(fx) < 2:
+                return
+            good = tuple(fx) if kind == "H" else (tuple(fx[:1]), tuple(fx[1:]))
+            fn = lambda: h.add_edges([good, 5])                                          # noqa: E731
+        elif name == "edges-weights-short":
+            fn = lambda: h.add_edges([tuple(fx), tuple(fx[:1])], weights=[1])           # noqa: E731
+        elif name == "edges-metadata-short":
+            fn = lambda: h.add_edges([tuple(fx), tuple(fx[:1])], metadata=[{}])         # noqa: E731
+        elif name == "time-negative":
+            fn = lambda: h.add_edge(tuple(fx), -1)                                       # noqa: E731
+        else:
+            fn = lambda: h.add_edge(tuple(fx), 1.5)                                      # noqa: E731
+        self.call("rej", fn)
+        self.resync(i)
+
+    def _query_rejected(self, op, r):
+        """a query the code rejects (a node that is not there; order= and size= together): it must leave the object alone"""
+        from hypergraphx.measures import degree as D
+        from hypergraphx.utils import cc as C
+        name, xs, how = op[1], list(op[2]), op[3]
+        h = self.objs[self.focus]
+        if name == "*":             # every query of the class, one after the other
+            for q in QUERY_NO:
+                if how == "both" or q in NODE_QUERIES:
+                    self._query_rejected(["q", q, xs, how], r)
+            return
+        if not hasattr(h, name):
+            return
+        fk = {"order": 1, "size": 2} if how == "both" else {}
+        pre = (fresh(xs[0], r),) if name in NODE_QUERIES and xs else (None,) if name in NODE_QUERIES else ()
+        mod = getattr(D if name.startswith("degree") else C, name, None)
+        if mod is not None and (self.kind == "H" or name.startswith("degree")) and r.random() < 0.5:
+            self.quiet(lambda: mod(h, *pre, **fk))
+        else:
+            self.quiet(lambda: getattr(h, name)(*pre, **fk))
 
 
 # ------------------------------------------------------------------------------------------
@@ -1124,9 +1741,10 @@ def compare(ctx, drv, case, lines, expect):
         else:
             ctx.count("further_disagreements_of_the_same_program_not_listed")
     for ln, a, ex in zip(lines, ans, expect):
-        if ex[0] == "ok":
-            if a != "ok":
-                disagree({**case, "line": ln}, f"model answers {a!r} to the history line {ln!r}")
+        if ex[0] in ("ok", "rej"):
+            if a != ex[0]:
+                disagree({**case, "line": ln}, f"model answers {a!r} to the history line {ln!r} (the implementation "
+                                               f"{'took' if ex[0] == 'ok' else 'rejected'} the call)")
             if ln.startswith(("gload", "dload")):
                 skip = False
             continue
@@ -1161,15 +1779,14 @@ def compare(ctx, drv, case, lines, expect):
 # ------------------------------------------------------------------------------------------
 # degrees of the three other classes
 
-def check_other(ctx, case, w, i):
+def check_other(ctx, case, w, i, filters=None):
     from hypergraphx.measures import degree as D
     kind = case["kind"]
     h, s, rank, P = w.objs[i], w.sh[i], w.rank, w.P
     ck = "c%d" % case.get("check", 0)
     rk = ranker(rank)
     canon = list(rank)
-    listing = {"D": lambda e: (tuple(e[0]), tuple(e[1])), "T": lambda e: (e[0], tuple(e[1])),
-               "M": lambda e: (tuple(e[0]), e[1])}[kind]
+    listing = LISTING[kind]
     got = content_ok(ctx, case, h, s, listing)
     if got is None:
         return [], []
@@ -1190,7 +1807,7 @@ def check_other(ctx, case, w, i):
     key = repr((kind, nodes_r, sorted(map(repr, rkeys))))
     kept = excl = False
     rx = P.at(ck + "|rare-filters")
-    for f in FILTERS + [rx.choice(RARE_FILTERS) for _ in range(2)]:
+    for f in (filters or FILTERS + [rx.choice(RARE_FILTERS) for _ in range(2)]):
         ws = want_size(f)
         k = kw(f)
         idx = [j for j in range(len(keys)) if ws is None or len(members[j]) == ws]
@@ -1268,8 +1885,30 @@ def degs_by_rank(orc, name):
 WATCHDOG_S = 5        # one check of one object takes ~10 ms
 
 
+LIGHT_FILTERS = [None, ("size", 1), ("size", 2), ("size", 3), ("order", 1), ("order", 2)]
+
+
+def derived_objects(kind, h, r):
+    """Hypergraph objects the other classes hand out (aggregations / time slices): objects a user holds like any other"""
+    out = []
+    try:
+        if kind == "M":
+            out.append(h.aggregated_hypergraph())
+        elif kind == "T":
+            c = r.random()
+            if c < 0.4:
+                out += list(h.aggregate(r.choice([1, 2, 3])).values())
+            elif c < 0.8:
+                out += list(h.subhypergraph(add_all_nodes=r.random() < 0.5).values())
+            else:
+                out += list(h.subhypergraph(time_window=(0, 2)).values())
+    except Exception:  # noqa: BLE001 - labels that cannot be sorted next to each other, ...: no object, nothing to check
+        return []
+    return out[:2]
+
+
 def check_case(ctx, drv, case, filters=None):
-    """run the program of `case`, check the objects it asks for and every object at the end"""
+    """run the program of `case`, check the objects it asks for, every object a call raised on, and every object at the end"""
     kind = case["kind"]
     case = {**case, "ops": [list(op) for op in case["ops"]]}        # labels in JSON form (what a replay file holds)
     real = {**case, "ops": [map_op(kind, op, dec_label) for op in case["ops"]]}
@@ -1281,18 +1920,27 @@ def check_case(ctx, drv, case, filters=None):
     except Exception as ex:  # noqa: BLE001
         ctx.violation(case, f"creating an empty hypergraph raised {type(ex).__name__}: {ex}")
         return
-    state = {"n": 0, "sent": 0}
+    state = {"n": 0, "sent": 0, "op": -1}
 
-    def check(i):
+    def check(i, light=False, after=None):
         where = {**case, "check": state["n"], "object": i}
+        if after is not None:
+            where["after_call_that_raised"] = after
+        ck = "c%d" % state["n"]
         state["n"] += 1
         lines.extend(w.lines[state["sent"]:])
-        expect.extend([("ok",)] * (len(w.lines) - state["sent"]))
+        expect.extend([(x,) for x in w.wants[state["sent"]:]])
         state["sent"] = len(w.lines)
-        ln, ex = check_h(ctx, where, w, i, filters) if kind == "H" else check_other(ctx, where, w, i)
+        flt = filters
+        if light:       # an intermediate look at a long-lived object: a third of the filters
+            flt = LIGHT_FILTERS + [w.P.at(ck + "|light").choice(FILTERS)]
+            ctx.count("checks_light")
+        ln, ex = check_h(ctx, where, w, i, flt) if kind == "H" else check_other(ctx, where, w, i, flt)
         lines.extend(ln)
         expect.extend(ex)
         ctx.count("checks")
+        if after is not None:
+            ctx.count("checks_right_after_a_call_that_raised")
         if w.stale[i]:
             ctx.count("checks_after_a_copy_relative_was_mutated")
         if w.checked[i] and w.touched[i]:
@@ -1300,28 +1948,56 @@ def check_case(ctx, drv, case, filters=None):
         w.checked[i], w.touched[i] = True, False
 
     def body():
-        for op in real["ops"]:
-            i = w.apply(op)
-            if i is not None:
-                check(i)
+        for k, op in enumerate(real["ops"]):
+            state["op"] = k
+            res = w.apply(op)
+            if w.events:            # a call raised and the program goes on: the object must still be the hypergraph it lists
+                ev, w.events = w.events, []
+                for j in dict.fromkeys(e[0] for e in ev):
+                    check(j, True, after=[e[1] for e in ev if e[0] == j][0])
+            if res is not None:
+                check(res[0], res[1])
+        state["op"] = len(real["ops"])
         for i in range(len(w.objs)):
             check(i)
+        if kind in "TM":
+            r = w.P.at("derived")
+            for obj in derived_objects(kind, w.objs[r.randrange(len(w.objs))], r) if r.random() < 0.6 else []:
+                w2 = World("H", rank, False, case.get("pres", 0))
+                w2.objs[0] = obj
+                w2.resync(0)
+                where = {**case, "check": state["n"], "object": "Hypergraph derived from the %s object" % kind}
+                state["n"] += 1
+                ln, ex = check_h(ctx, where, w2, 0, LIGHT_FILTERS)
+                lines.extend(w2.lines + ln)
+                expect.extend([("ok",)] * len(w2.lines) + ex)
+                ctx.count("checks_of_hypergraphs_derived_from_temporal_multiplex")
+
+    def at():
+        k = state["op"]
+        return "operation #%d %r" % (k, case["ops"][k]) if 0 <= k < len(case["ops"]) else "the final checks"
 
     try:
-        guarded(WATCHDOG_S * (2 + sum(1 for op in case["ops"] if op[0] in ("chk", "cp", "sub"))), body)
+        guarded(WATCHDOG_S * (2 + sum(1 for op in case["ops"] if op[0] in ("chk",) + PRODUCERS)) + 0.3 * len(case["ops"]), body)
     except Timeout:
-        ctx.violation(case, "a call did not return within the watchdog time on this history")
+        ctx.violation(case, f"a call did not return within the watchdog time on this history ({at()})")
         ctx.count("watchdog_timeouts")
         return
     except (MemoryError, RecursionError) as ex:
-        ctx.violation(case, f"a degree / connectivity call died with {type(ex).__name__} on this history")
+        ctx.violation(case, f"a degree / connectivity call died with {type(ex).__name__} on this history ({at()})")
         ctx.count("watchdog_timeouts")
         return
     except AssertionError:
         raise                       # the oracle contradicts itself: tool failure, not a finding
-    except Exception as ex:  # noqa: BLE001 - an operation of the history or reading the object back failed
-        ctx.violation(case, f"a valid operation of this history (or reading the object back) raised {type(ex).__name__}: {ex}")
+    except Broken as ex:
+        ctx.violation(case, f"after {at()}: {ex}")
         return
+    except Exception as ex:  # noqa: BLE001 - an operation of the history or reading the object back failed
+        ctx.violation(case, f"a valid operation of this history ({at()}) or reading the object back raised {type(ex).__name__}: {ex}")
+        return
+    finally:
+        for name, v in w.counts.items():
+            ctx.count(name, v)
     if len(w.objs) > 1:
         ctx.count("programs_with_several_objects")
     if w.weighted:
@@ -1369,36 +2045,159 @@ def fresh_record(rng, kind, s, labels, size=None):
     return None
 
 
-def gen_mut(rng, kind, s, labels, removed):
-    """one random mutation of the object with shadow s, chosen so that it touches what the object holds"""
+def with_md(rng, kind, op, p=0.4):
+    """the add_edge op with a metadata argument (any kind: None, mappings, objects that are no mapping, the shared dict)"""
+    if op is not None and rng.random() < p:
+        op = list(op) + [{"md": rng.randrange(SHARED_MD + 1)}]
+    return op
+
+
+# every mutator a program can call, by the name the generator draws it under -> (weight in the random routes, classes)
+MUTATORS = {"remove_edge": (20, "HDTM"), "reinsert": (8, "HDTM"), "add_edge": (20, "HDTM"), "add_node": (4, "HDTM"),
+            "add_nodes": (5, "HDTM"), "remove_node": (10, "HDTM"), "remove_edges": (3, "HDT"), "remove_nodes": (3, "HDT"),
+            "add_edges": (4, "HDTM"), "clear": (4, "HDT"), "populate": (4, "HDTM"), "raw": (2, "H"), "meta": (4, "HDTM"),
+            "random_edge": (2, "H"), "malformed": (9, "HDTM"), "query": (3, "HDTM")}
+MUT_NAMES = {k: [n for n, (_, ks) in MUTATORS.items() if k in ks] for k in "HDTM"}
+MUT_DRAW = {k: [n for n, (wt, ks) in MUTATORS.items() if k in ks for _ in range(wt)] for k in "HDTM"}
+
+
+def some_labels(rng, s, labels, k):
+    """k labels, present and absent ones mixed"""
+    pool = list(dict.fromkeys(list(s.nodes) + list(labels)))
+    return [rng.choice(pool) for _ in range(k)] if pool else []
+
+
+def gen_malformed(rng, kind, s, labels, weighted):
+    """one call that is no plain use: the unchanged code rejects it (absent items, a weight on an unweighted hypergraph, a batch
+    with a bad member, arguments of the wrong shape - some rejected half-way) or takes it although the documentation asks
+    for something else (metadata that is no mapping on a NEW hyperedge)"""
     recs, nodes = list(s.recs), list(s.nodes)
-    r = rng.random()
-    if r < 0.30 and recs:
+    absent = [x for x in labels if x not in s.nodes]
+    what = rng.choice(["re-absent", "re-absent", "rn-absent", "rn-absent", "RE-bad", "RN-bad", "weight", "N-short", "md-new", "md-new",
+                       "md-new"] + BAD_CALLS[kind])
+    if what == "re-absent":
+        op = fresh_record(rng, kind, s, labels)
+        return [["re"] + op[1:]] if op else []
+    if what == "rn-absent":
+        return [["rn", rng.choice(absent), rng.random() < 0.5]] if absent else []
+    if what == "RE-bad" and kind != "M" and recs:
+        op = fresh_record(rng, kind, s, labels)
+        wr = (lambda q: list(q)) if kind == "H" else (lambda q: op_of_rec(kind, q, "e"))
+        bad = [wr(rng.choice(recs)), (op[1] if kind == "H" else op) if op and rng.random() < 0.6 else wr(rng.choice(recs))]
+        return [["RE", bad if rng.random() < 0.5 else bad[::-1]]]
+    if what == "RN-bad" and kind != "M" and nodes:
+        bad = [rng.choice(nodes), rng.choice(absent) if absent and rng.random() < 0.6 else rng.choice(nodes)]
+        return [["RN", bad if rng.random() < 0.5 else bad[::-1], rng.random() < 0.5]]
+    if what == "weight" and not weighted:
+        op = fresh_record(rng, kind, s, labels) if rng.random() < 0.7 or not recs else op_of_rec(kind, rng.choice(recs), "e")
+        return [list(op) + [{"w": rng.choice([2, 0.5, 0, 3])}]] if op else []
+    if what == "N-short" and kind != "D":
+        xs = some_labels(rng, s, labels, rng.randint(1, 3))
+        return [["N", list(dict.fromkeys(xs)), {"md": "short"}]] if xs else []
+    if what == "md-new":
+        op = fresh_record(rng, kind, s, labels)
+        return [list(op) + [{"md": rng.randrange(N_MAPPING_MD, SHARED_MD)}]] if op else []
+    if what in BAD_CALLS[kind]:
+        pool = nodes if len(nodes) >= 2 and rng.random() < 0.7 else list(labels)
+        xs = sample_group(rng, pool, rng.randint(1, 3)) if pool else []
+        if what == "nodes-partial":
+            xs = [rng.choice(absent)] if absent else xs
+        elif what == "edges-partial":
+            op = fresh_record(rng, kind, s, labels)
+            xs = op_members(kind, op) if op else []
+        return [["bad", what, xs]] if xs or what in ("edge-not-iterable", "nodes-not-iterable") else []
+    return []
+
+
+def gen_mut(rng, kind, s, labels, removed, w=None, name=None):
+    """one mutation of the object with shadow s, chosen so that it touches what the object holds.  `name` = the mutator to
+    use (the life route draws every mutator of the class equally often), else drawn with the weights of MUTATORS"""
+    recs, nodes = list(s.recs), list(s.nodes)
+    name = name or rng.choice(MUT_DRAW[kind])
+    weighted = bool(w and w.wt[w.focus])
+    if name == "remove_edge" and recs:
         rec = rng.choice(recs)
         removed.append(rec)
         return [op_of_rec(kind, rec, "re")]
-    if r < 0.42 and removed:
-        return [op_of_rec(kind, removed.pop(rng.randrange(len(removed))), "e")]      # re-insertion
-    if r < 0.68:
-        op = fresh_record(rng, kind, s, labels)
+    if name == "reinsert" and removed:
+        return [with_md(rng, kind, op_of_rec(kind, removed.pop(rng.randrange(len(removed))), "e"), 0.25)]
+    if name == "add_edge":
+        if kind == "H" and rng.random() < 0.05:
+            return [["e", []]]                    # the empty hyperedge: a record of size 0 that contains no node
+        if recs and rng.random() < 0.12:          # a hyperedge that is there already (its metadata is replaced, nothing else)
+            return [with_md(rng, kind, op_of_rec(kind, rng.choice(recs), "e"), 0.8)]
+        op = with_md(rng, kind, fresh_record(rng, kind, s, labels))
+        if op and not isinstance(op[-1], dict) and not weighted and rng.random() < 0.08:
+            op = op + [{"w": rng.choice([1, 1.0, True])}]          # weight 1 is what an unweighted hypergraph takes
         return [op] if op else []
-    if r < 0.74:
+    if name == "add_node":
         extra = [x for x in labels if x not in s.nodes]
-        return [["n", rng.choice(extra)]] if extra else []
-    if r < 0.88 and nodes:
+        pool = extra if extra and (rng.random() < 0.8 or not nodes) else nodes
+        if not pool:
+            return []
+        return [["n", rng.choice(pool)] + ([{"md": rng.randrange(SHARED_MD + 1)}] if rng.random() < 0.35 else [])]
+    if name == "add_nodes":
+        xs = some_labels(rng, s, labels, rng.choice([0, 1, 2, 2, 3, 4]))
+        how = rng.choice([None, None, None, "full", "full"])
+        if how is not None:
+            xs = list(dict.fromkeys(xs))
+        return [["N", xs] + ([{"md": how}] if how else [])]
+    if name == "remove_node" and nodes:
         return [["rn", rng.choice(nodes), rng.random() < 0.5]]
-    if kind != "H":
-        return []
-    if r < 0.915 and len(recs) >= 2:
+    if name == "remove_edges" and len(recs) >= 2:
         two = rng.sample(recs, 2)
         removed.extend(two)
-        return [["RE", [list(q) for q in two]]]
-    if r < 0.945 and len(nodes) >= 2:
+        return [["RE", [list(q) if kind == "H" else op_of_rec(kind, q, "e") for q in two]]]
+    if name == "remove_nodes" and len(nodes) >= 2:
         return [["RN", rng.sample(nodes, 2), rng.random() < 0.5]]
-    if r < 0.975:
+    if name == "add_edges":
         ops = [fresh_record(rng, kind, s, labels) for _ in range(2)]
-        return [["E", [op[1] for op in ops if op]]] if any(ops) else []
-    return [["clr"]]
+        es = [op[1] if kind == "H" else op for op in ops if op]
+        if not es:
+            return []
+        return [["E", es] + ([{"md": [rng.randrange(SHARED_MD + 1) for _ in es]}] if rng.random() < 0.4 else [])]
+    if name == "clear":
+        # start again on the same object: old labels come back, some of them WITHOUT a hyperedge, some old hyperedges too
+        out = [["clr"]]
+        back = rng.sample(nodes, rng.randint(0, len(nodes))) if nodes else []
+        again = rng.sample(recs, rng.randint(0, min(2, len(recs)))) if recs else []
+        new = [op_of_rec(kind, q, "e") for q in again]
+        if back:
+            new += [["N", back]] if rng.random() < 0.7 else [["n", x] for x in back]
+        if rng.random() < 0.5:
+            new.reverse()
+        return out + new
+    if name == "populate" and w is not None:
+        others = [j for j in range(len(w.sh)) if j != w.focus]
+        if others and rng.random() < 0.45:
+            return [["pop", rng.choice(others)]]         # the tables of another object, copied in
+        if len(w.sh) < MAX_OBJS and rng.random() < 0.4:
+            # what the binary loader does: a fresh object takes over the tables; the work goes on there
+            return [["new"], ["on", len(w.sh)], ["pop", w.focus]]
+        if len(w.sh) < MAX_OBJS:
+            # snapshot - go on working on the object and look at it - roll back to the snapshot
+            mid = gen_mut(rng, kind, s, labels, removed, w, rng.choice(["add_edge", "remove_edge", "remove_node", "add_nodes", "clear"]))
+            return [["cp", w.focus]] + mid + [["chk", w.focus, 1], ["pop", len(w.sh)]]
+        return [["pop", w.focus]]
+    if name == "raw":
+        return [[rng.choice(["adj", "el"])]]
+    if name == "meta":
+        recop = op_of_rec(kind, rng.choice(recs), "e") if recs and rng.random() < 0.7 else fresh_record(rng, kind, s, labels)
+        xs = some_labels(rng, s, labels, 1) if rng.random() < 0.9 else []
+        return [["meta", rng.choice(META_CALLS), recop, xs, rng.randrange(1000)]]
+    if name == "random_edge":
+        return [["rnd", rng.choice([1, 1, 2]), rng.choice([1, 2, 2, 3]), rng.randrange(10 ** 6), rng.random() < 0.75, rng.random() < 0.5]]
+    if name == "malformed":
+        return gen_malformed(rng, kind, s, labels, weighted)
+    if name == "query":
+        qs = [q for q in QUERY_NO if kind == "H" or q in ("degree", "degree_sequence", "degree_distribution", "get_incident_edges",
+                                                          "get_neighbors", "is_isolated", "isolated_nodes")]
+        q = rng.choice(qs + ["*"] * len(qs))
+        how = rng.choice(["absent", "absent", "both"]) if q in NODE_QUERIES or q == "*" else "both"
+        absent = [x for x in labels if x not in s.nodes]
+        xs = ([rng.choice(absent)] if absent else []) if how == "absent" else ([rng.choice(nodes)] if nodes else [])
+        return [["q", q, xs, how]]
+    return []
 
 
 def gen_swap(rng, kind, s, labels, removed):
@@ -1415,7 +2214,36 @@ def gen_swap(rng, kind, s, labels, removed):
     return [op_of_rec(kind, rec, "re"), op]
 
 
-ROUTES = ["plain"] * 7 + ["detour"] * 3 + ["copy"] * 3 + ["copied"] * 3 + ["requery"] * 3 + ["random"] * 4 + ["sub"] * 2
+ROUTES = (["plain"] * 6 + ["detour"] * 3 + ["copy"] * 3 + ["copied"] * 3 + ["requery"] * 3 + ["random"] * 4 + ["sub"] * 2
+          + ["life"] * 6 + ["made"] * 5)
+
+
+def gen_producer(rng, kind, w, src):
+    """an op that makes a NEW object out of object src through a filter / loader of the library"""
+    if kind != "H":
+        return rng.choice([["io", src, True], ["io", src, rng.random() < 0.5], ["cp", src]])
+    s = w.sh[src]
+    sizes = sorted({len(q) for q in s.recs}) or [2]
+    f = rng.choice([None, ["size", rng.choice(sizes)], ["size", rng.choice(sizes)], ["order", rng.choice(sizes) - 1], ["size", rng.randint(0, 5)]])
+    r = rng.random()
+    if r < 0.25:
+        vals = [rng.choice(sizes + [1, 2, 3, 6]) for _ in range(rng.randint(0, 3))]
+        return ["sbo", src, "sizes", vals, rng.random() < 0.5] if rng.random() < 0.5 else \
+            ["sbo", src, "orders", [v - 1 for v in vals], rng.random() < 0.5]
+    if r < 0.55:
+        return ["slc", src, f]
+    if r < 0.8:
+        return ["ges", src, f, rng.random() < 0.4, rng.random() < 0.5]
+    return ["io", src, rng.random() < 0.5]
+
+
+def gen_generated(rng):
+    """an op that takes an object over from a generator of the library"""
+    n = rng.choice([1, 2, 3, 4, 5, 6, 8])
+    if rng.random() < 0.3:
+        return ["gen", "uniform", n, [[rng.randint(1, min(n, 3)), rng.randint(0, 4)]], rng.randrange(10 ** 6)]
+    sizes = {rng.randint(1, min(n, 4)): rng.randint(0, 3) for _ in range(rng.randint(0, 3))}
+    return ["gen", "random", n, sorted([a, b] for a, b in sizes.items()), rng.randrange(10 ** 6)]
 
 
 def sub_nodes(rng, s, p_all=0.2):
@@ -1440,23 +2268,31 @@ def gen_program_real(rng, kind):
     route = rng.choice(ROUTES)
     labels = list(dict.fromkeys(labels_of({"kind": kind, "ops": base})))
     weighted = rng.random() < 0.2       # a weighted hypergraph is a hypergraph: its degrees count hyperedges
+    e_at = 2 if kind in "HD" else 3
+    base = [op + [{"md": rng.randrange(SHARED_MD + 1)}] if op[0] == "e" and len(op) == e_at and rng.random() < 0.2 else op
+            for op in base]             # metadata of any kind on some of the hyperedges (never part of the content)
     if route == "plain" or not labels:
         return {"kind": kind, "ops": base, "route": "plain", "weighted": weighted, "uni": uni}
     if kind == "H" and rng.random() < 0.2:
         # the hyperedges arrive through the constructor
         base = [["ctor", [op[1] for op in base if op[0] == "e"]]] + [op for op in base if op[0] != "e"]
-    w = World(kind)
+    w = World(kind, None, weighted)
     ops, removed = [], []
 
     def add(op):
         ops.append(op)
         w.apply(op)
 
-    def muts(k, swap=False):
+    def muts(k, swap=False, name=None):
         for _ in range(k):
             s = w.sh[w.focus]
-            for op in (gen_swap if swap else gen_mut)(rng, kind, s, labels, removed):
+            new = gen_swap(rng, kind, s, labels, removed) if swap else gen_mut(rng, kind, s, labels, removed, w, name)
+            for op in new:
                 add(op)
+            if new and new[-1][0] == "pop" and rng.random() < 0.8:
+                # the restored tables are worked on: new hyperedges get their ids from the restored counter
+                for op in gen_mut(rng, kind, w.sh[w.focus], labels, removed, w, rng.choice(["add_edge", "add_edge", "add_edges", "remove_node"])):
+                    add(op)
 
     if route == "detour":
         # temporary records inserted first and removed again (internal ids get gaps), then a part of the records
@@ -1506,11 +2342,39 @@ def gen_program_real(rng, kind):
         muts(rng.randint(1, 2), swap=rng.random() < 0.6)
         add(["chk"])
         muts(rng.randint(0, 2))
+    elif route == "life":        # ONE long-lived object: every mutator of the class in turn, a look at the object after each
+        add(["chk"])
+        for _ in range(rng.randint(3, 6)):
+            name = rng.choice(MUT_NAMES[kind])
+            muts(1, name=name)
+            if rng.random() < 0.3:
+                muts(1)
+            add(["chk", w.focus, 1])
+            if rng.random() < 0.12 and len(w.sh) < MAX_OBJS:
+                add(["cp", 0])
+    elif route == "made":        # the starting point is an object a generator / loader / filter of the library made
+        if kind == "H" and rng.random() < 0.45:
+            ops, removed = [], []
+            w = World(kind, None, weighted)
+            add(gen_generated(rng))
+            labels = list(dict.fromkeys(list(w.sh[0].nodes) + [-1, -2] + labels[:3]))
+        else:
+            add(gen_producer(rng, kind, w, 0))
+            if len(w.sh) > 1 and rng.random() < 0.7:
+                add(["on", len(w.sh) - 1])
+        if rng.random() < 0.5:
+            add(["chk", w.focus, 1])
+        muts(rng.randint(1, 4))
+        if rng.random() < 0.4:
+            add(["chk", w.focus, 1])
+            muts(rng.randint(1, 2))
     elif route == "random":
         for _ in range(rng.randint(2, 7)):
             r = rng.random()
-            if r < 0.22 and len(w.sh) < MAX_OBJS:
+            if r < 0.18 and len(w.sh) < MAX_OBJS:
                 add(["cp", rng.randrange(len(w.sh))])
+            elif r < 0.24 and len(w.sh) < MAX_OBJS:
+                add(gen_producer(rng, kind, w, rng.randrange(len(w.sh))))
             elif r < 0.32 and kind == "H" and len(w.sh) < MAX_OBJS:
                 src = rng.randrange(len(w.sh))
                 add(["sub", src, sub_nodes(rng, w.sh[src])])
@@ -1527,6 +2391,48 @@ SMALL_FILTERS = [None, ("size", 0), ("size", 1), ("size", 2), ("size", 3), ("siz
                  ("order", 0), ("order", 1), ("order", 2), ("order", 3), ("order", 4)]
 
 
+# every public method of the four classes (enumerated with inspect at the start of a run) has one of these roles; a method
+# that is not listed here (a new mutator) is reported in the evidence
+API_ROLE = {}
+for _n in ("add_node add_nodes add_edge add_edges remove_node remove_nodes remove_edge remove_edges clear populate_from_dict "
+           "set_adj_dict set_edge_list " + " ".join(META_CALLS)).split():
+    API_ROLE[_n] = "mutator_called_in_programs"
+for _n in list(QUERY_NO):
+    API_ROLE[_n] = "query_checked"
+for _n in "copy subhypergraph subhypergraph_by_orders subhypergraph_largest_component get_edges expose_data_structures".split():
+    API_ROLE[_n] = "producer_called_in_programs"
+for _n in "get_nodes get_adj_dict get_edge_list".split():
+    API_ROLE[_n] = "reader_called"
+for _n in "set_dataset_metadata set_layer_metadata set_existing_layers".split():
+    API_ROLE[_n] = "mutator_of_metadata_not_called"
+for _n in ("adjacency_factor adjacency_matrix binary_incidence_matrix check_edge check_node distribution_sizes "
+           "dual_random_walk_adjacency expose_attributes_for_hashing get_all_edges_metadata get_all_incidences_metadata "
+           "get_all_nodes_metadata get_edge_metadata get_hypergraph_metadata get_incidence_metadata get_mapping get_node_metadata "
+           "get_orders get_sizes get_weight get_weights incidence_matrix is_uniform is_weighted max_order max_size num_edges num_nodes "
+           "to_line_graph get_source_edges get_sources get_target_edges get_targets aggregate annealed_adjacency_matrix "
+           "get_times_for_edge max_time min_time temporal_adjacency_matrix aggregated_hypergraph get_dataset_metadata "
+           "get_existing_layers get_layer_metadata").split():
+    API_ROLE[_n] = "reader_not_called"
+
+
+def audit_api(ctx):
+    import inspect
+    from hypergraphx import Hypergraph, DirectedHypergraph, TemporalHypergraph, MultiplexHypergraph
+    for cls in (Hypergraph, DirectedHypergraph, TemporalHypergraph, MultiplexHypergraph):
+        for name, _ in inspect.getmembers(cls, inspect.isfunction):
+            if name.startswith("_"):
+                continue
+            role = API_ROLE.get(name)
+            if name == "subhypergraph" and cls is TemporalHypergraph:
+                role = "reader_not_called"
+            if role is None:
+                ctx.count("api_methods_NOT_CLASSIFIED")
+                ctx.assumptions.append(f"{cls.__name__}.{name} is a public method this check does not know: if it changes nodes or "
+                                       f"hyperedges it is not interleaved with the queries")
+            else:
+                ctx.count("api_methods_" + role)
+
+
 def stop(ctx, reserve=8):
     return (ctx.too_many() or ctx.extra.get("watchdog_timeouts", 0) >= 2
             or (ctx.time_left() is not None and ctx.time_left() < reserve))
@@ -1534,6 +2440,7 @@ def stop(ctx, reserve=8):
 
 def run(ctx):
     drv = ctx.driver() if ctx.model_available else None
+    audit_api(ctx)
     # fixed seeds of the search: D23's shape (a size-2 path next to a size-3 hyperedge), empty hypergraph, one node
     for case in ({"kind": "H", "ops": [["e", [1, 2]], ["e", [2, 3, 4]], ["e", [4, 5]], ["n", 9], ["e", [7]]], "pres": 1},
                  {"kind": "H", "ops": [], "pres": 2}, {"kind": "H", "ops": [["n", "a"]], "pres": 3},
